@@ -6,7 +6,7 @@
    instances.  The full statement, kept visible:
 
      forall c f r, wf_input f -> encode_fit c f = Ok r ->
-       decode_stream (mkcfg true false) (er_bytes r) = Ok [fit with messages = expected c (er_msgs r)]
+       decode_stream (mkcfg true false 4096) (er_bytes r) = Ok [fit with messages = expected c (er_msgs r)]
 
    where [expected] moves the timestamp of a compressed message to the front and applies C06's string normalisation. *)
 From Coq Require Import NArith List Bool.
@@ -39,7 +39,7 @@ Print Assumptions C01_field_value_array.
    decode as [t, t+10, t+37, t+38] -- the encoder's reference only moves on roll-over, the decoder's clock follows every timestamp *)
 Theorem C01_timestamp_refuted : exists c f r,
   encode_fit c f = Ok r /\ timestamps (er_msgs r) = [t0; t0 + 10; t0 + 5; t0 + 6]
-  /\ decoded_timestamps (decode_stream (mkcfg true false) (er_bytes r)) = [t0; t0 + 10; t0 + 37; t0 + 38].
+  /\ decoded_timestamps (decode_stream (mkcfg true false 4096) (er_bytes r)) = [t0; t0 + 10; t0 + 37; t0 + 38].
 Proof.
   exists cfg_compressed, back_file.
   destruct (encode_fit cfg_compressed back_file) as [r| | |] eqn:E; [|vm_compute in E; discriminate E ..].
@@ -52,7 +52,7 @@ Print Assumptions C01_timestamp_refuted.
 (* executable instance: non-decreasing timestamps inside and across the window come back exactly *)
 Example C01_monotone_instance :
   match encode_fit cfg_compressed mono_file with
-  | Ok r => decoded_timestamps (decode_stream (mkcfg true false) (er_bytes r)) = timestamps (ef_msgs mono_file)
+  | Ok r => decoded_timestamps (decode_stream (mkcfg true false 4096) (er_bytes r)) = timestamps (ef_msgs mono_file)
   | _ => False
   end.
 Proof. vm_compute. reflexivity. Qed.
